@@ -184,6 +184,34 @@ func (x *Exec) simple(fr *Frame, st *State, in ssa.Instruction) {
 	case *ssa.Go:
 		// T3: no sequential effect in the spawner; arguments are evaluated
 		x.note("T3: go statement at " + x.where(in) + " has no sequential effect in the spawner")
+		// zero-annotation obligation: the spawned closure must not capture a variable that the enclosing loop goes on assigning
+		// (before Go 1.22 -- the language version of the module decides -- `for _, v := range` has ONE v: the goroutines see
+		// whatever it holds when they get to run)
+		if mc, ok := v.Call.Value.(*ssa.MakeClosure); ok && fr.depth == 0 {
+			li := x.loopInfo(fr.fn)
+			for _, bnd := range mc.Bindings {
+				al, isAlloc := bnd.(*ssa.Alloc)
+				if !isAlloc {
+					continue
+				}
+				for _, body := range li.body {
+					if !body[in.Block()] || body[al.Block()] {
+						continue // the go statement is not in this loop, or the variable is allocated per iteration
+					}
+					stored := false
+					if al.Referrers() != nil {
+						for _, u := range *al.Referrers() {
+							if stt, isStore := u.(*ssa.Store); isStore && stt.Addr == ssa.Value(al) && body[stt.Block()] {
+								stored = true
+							}
+						}
+					}
+					if stored {
+						x.emit(fr, st, x.label(fr.fn, in, "go")+".captures-loop-variable:"+al.Comment, "loopvar", atom("false"), in)
+					}
+				}
+			}
+		}
 	case *ssa.Send, *ssa.Select:
 		panic(oos("channel operation at %s (T4)", x.where(in)))
 	case *ssa.SliceToArrayPointer, *ssa.MultiConvert:
